@@ -253,8 +253,9 @@ PROPS = {
     },
     "C10": {
         "lean_modules": ["AvroProofs.C10"],
-        "theorems": [],
-        "partial": [],
+        "theorems": ["Avro.C10.toJson_strict", "Avro.C10.customAttrs_ok", "Avro.C10.fieldAttrs_ok", "Avro.C10.name_roundtrip_with_namespace", "Avro.C10.null_namespace_inherits"],
+        "partial": [{"theorem": "Avro.C10.toJson_strict", "excluded_by": "hypothesis wfA (custom attributes never carry the name of a key the serializer writes for that node): the parser's attribute filters establish it node by node (customAttrs_ok, fieldAttrs_ok, for JSON objects with distinct keys); the induction over the parser that would make it a corollary for every accepted schema is not mechanised - the harness checks every serialized text with a duplicate-detecting JSON reader instead"},
+                    {"theorem": "(not stated) parse (toJson s) = s", "excluded_by": "the full round trip is decided by exact rows (parse then serialize, 128k texts in the thorough tier) and the oracle (re-parse, re-serialize identical, header schema identical); it is FALSE of the code for names without a namespace nested in a namespaced type: null_namespace_inherits proves that for every such name (open finding)"}],
         "harness": c10_runs,
         "projection": "exact",
         "nontrivial": lambda l: True,
@@ -267,8 +268,9 @@ PROPS = {
     },
     "C11": {
         "lean_modules": ["AvroProofs.C11"],
-        "theorems": [],
-        "partial": [],
+        "theorems": ["Avro.C11.parse_wf", "Avro.C11.names_match_grammar", "Avro.C11.union_rules", "Avro.C11.record_rules", "Avro.C11.enum_rules", "Avro.C11.decimal_rules"],
+        "partial": [{"theorem": "Avro.C11.parse_wf", "excluded_by": "wfP covers the grammars of names / symbols / field names, the union rules, enum defaults, unique field names and decimal precision / scale for every accepted schema; NOT in wfP because false of the code (open findings): unique full names, precision fitting a fixed's size; every reference resolves and every default conforms are properties of the parser state / of the dflt parameter and are decided by the oracle (ResolvedSchema::new, independent default check)"},
+                    {"theorem": "(totality)", "excluded_by": "the model parser is a total function; that the crate neither panics nor hangs is observed on every text (catch_unwind, watchdog), and 'every well-formed schema is accepted' is decided on the generated and decorated texts only"}],
         "harness": c11_runs,
         "projection": "exact",
         "nontrivial": lambda l: True,
@@ -279,9 +281,9 @@ PROPS = {
         "assumptions": [],
     },
     "C12": {
-        "lean_modules": ["AvroProofs.C12", "AvroProofs.C18"],
-        "theorems": [],
-        "partial": [],
+        "lean_modules": ["AvroProofs.C12"],
+        "theorems": ["Avro.C12.rabin_is_crc64", "Avro.C12.pcf_name", "Avro.C12.pcfEntries_skip_irrelevant", "Avro.C12.pcfEntries_only_relevant", "Avro.C12.relevant_record", "Avro.C12.relevant_enum", "Avro.C12.relevant_fixed", "Avro.C12.relevant_array", "Avro.C12.relevant_map", "Avro.C12.logical_primitive_not_reduced", "Avro.C12.decimal_stripped"],
+        "partial": [{"theorem": "Avro.C12.pcfEntries_only_relevant", "excluded_by": "objects with exactly one entry are excluded (hn : n != 1): there the PRIMITIVES rule applies, and an object that had a stripped attribute keeps its object form (logical_primitive_not_reduced, open finding pinned by the crate's own test). Equality of the whole form with the specification's rules and idempotence through the parser are decided by the oracle (independent implementation of the seven rules; parse(form) canonicalises to form)"}],
         "harness": c12_runs,
         "projection": "exact",
         "nontrivial": lambda l: True,
